@@ -80,6 +80,8 @@ def run(chk):
             chk.fail('C11.R2', f.where, f.qual, f.construct, 'a replica refuses a play the table manager accepts: ' + f.reason, **f.extra)
         elif f.rule == 'C05.R3' and 'trick' in f.construct:
             chk.fail('C11.R1', f.where, f.qual, f.construct, 'the card handed to the shared state machine is not the played card, exactly once: ' + f.reason)
+        else:
+            chk.fail('C11.D', f.where, f.qual, f'[{f.rule}] {f.construct}', '(the statement of C11 rests on C05) ' + f.reason, **f.extra)
     r2 = shadow.rules.get('C05.R2', {})
     chk.floor('C11.R2', 'accepted-play situations evaluated for both engines', r2.get('obligations', 0), 40)
     if not n2:
